@@ -1068,6 +1068,9 @@ def ndarray_attr(interp, x: NDArr, name):
         for s in x.shape:
             r = binop("*", r, s)
         return r
+    if name == "flags":
+        # arrays of the model are ordinary writeable arrays (read-only views are not modelled)
+        return Instance(None, {"writeable": True, "__closed__": True}, name="ndarray.flags")
     if name == "dtype":
         return Opaque("dtype")
     if name == "copy":
